@@ -353,3 +353,10 @@ Definition table_oracle (fps : list nat) (hards : list bool)
 Definition observe (cfg : config) (orc : oracle) (sched : list nat) (ths : list thread) :=
   let '(st, ths', tr) := run cfg orc sched (init_state cfg) ths in
   (tr, (enc_results ths', (map enc_hopt (hheap st), (map enc_ropt (rheap st), bythread st)))).
+
+(* monomorphic comparison of an observation with the recorded one (instances resolved once, here) *)
+Definition obs := (list (nat * nat) * (list (list (list nat)) * (list (list nat) *
+                  (list (list (nat * nat) * list (nat * nat)) * list (nat * nat)))))%type.
+Definition obs_eqb (a b : obs) : bool := eqb a b.
+Definition observe_is (cfg : config) (orc : oracle) (sched : list nat) (ths : list thread) (expected : obs) : bool :=
+  obs_eqb (observe cfg orc sched ths) expected.
